@@ -22,21 +22,21 @@ from .model import TreeModel
 from .snapshot import ustr
 
 MUTATING = {"mk_group", "mk_object", "add_data", "add_comment", "add_file", "set_values", "rename", "set_flag",
-            "set_meta", "move", "copy", "rm_ws", "rm_parent", "pg_add", "pg_rm", "pg_del", "mk_dup", "pg_new", "move_data", "copy_extent", "type_edit", "retype", "hole_attr", "rm_all", "reattach"}
+            "set_meta", "move", "copy", "rm_ws", "rm_parent", "pg_add", "pg_rm", "pg_del", "mk_dup", "pg_new", "move_data", "copy_extent", "type_edit", "retype", "hole_attr", "rm_all", "reattach", "geo_image"}
 SCHEDULE = {"gc", "drop", "close_reopen", "reopen_same", "save_as", "list", "lookup", "observe", "tidy"}
 
 BASE_WEIGHTS = {
     "mk_group": 6, "mk_object": 10, "add_data": 12, "add_comment": 2, "add_file": 1, "set_values": 5,
     "rename": 4, "set_flag": 3, "set_meta": 3, "move": 5, "copy": 6, "rm_ws": 5, "rm_parent": 4,
-    "pg_add": 4, "pg_rm": 2, "pg_del": 1, "pg_new": 2, "mk_dup": 0, "move_data": 3, "copy_extent": 2, "type_edit": 2, "retype": 1, "hole_attr": 0, "rm_all": 2, "reattach": 2,
+    "pg_add": 4, "pg_rm": 2, "pg_del": 1, "pg_new": 2, "mk_dup": 0, "move_data": 3, "copy_extent": 2, "type_edit": 2, "retype": 1, "hole_attr": 0, "rm_all": 2, "reattach": 2, "geo_image": 0,
     "gc": 5, "drop": 3, "close_reopen": 4, "reopen_same": 2, "save_as": 1, "list": 3, "lookup": 3, "observe": 2,
 }
 PROFILES = {
-    "C01": {},
+    "C01": {"geo_image": 2},
     "C02": {"rm_parent": 6, "rm_ws": 8, "set_flag": 6, "move": 7, "copy": 8, "close_reopen": 6, "move_data": 6, "copy_extent": 5, "pg_add": 6},
     "C05": {"add_comment": 5, "add_file": 3, "rm_ws": 12, "rm_parent": 9, "pg_add": 8, "pg_rm": 4, "pg_new": 5, "lookup": 6, "copy": 4, "set_flag": 5},
     "C06": {"mk_dup": 8, "copy": 10, "rm_ws": 6, "rm_parent": 5, "lookup": 4},
-    "C09": {"observe": 4, "list": 4, "type_edit": 6, "retype": 8, "copy": 10, "pg_add": 7, "add_data": 14},
+    "C09": {"observe": 4, "list": 4, "type_edit": 6, "retype": 8, "copy": 10, "pg_add": 7, "add_data": 14, "geo_image": 4, "add_file": 3},
     "C12": {"copy": 16, "set_values": 7, "rename": 6, "set_meta": 6, "pg_add": 6, "copy_extent": 6, "pg_new": 3},
 }
 
@@ -609,6 +609,77 @@ class World:
         model.add(rec, op["id"], 0)
         self.note_created(op, h, [rec["uid"]])
         self.keep_or_drop(op, h, data)
+        return "ok"
+
+    # ---- images: a GeoImage keeps its picture as a file child whose type it names itself
+    def gen_geo_image(self, rng, h):
+        t = self.target(rng, h, "object", lambda r: r["cls"] == "GeoImage")
+        args = {"shape": [rng.randrange(2, 6), rng.randrange(2, 6)], "rgb": rng.random() < 0.5, "iseed": rng.getrandbits(32)}
+        if t is None or rng.random() < 0.3:
+            c = self.target(rng, h, "container", lambda r: not r.get("concat_group"))
+            if c is None:
+                return None
+            # (always with its picture: a GeoImage without one has no corners either and cannot be copied -- DESIGN 12.6)
+            return {**args, "new": True, "t": c, "name": build.name(rng), "with_image": True}
+        return {**args, "new": False, "t": t}
+
+    def do_geo_image(self, op):
+        from geoh5py.objects import GeoImage
+
+        h = op["h"]
+        model = self.h[h].model
+        ws = self.h[h].ws
+        ir = random.Random(op["iseed"])
+        shape = tuple(op["shape"]) + ((3,) if op["rgb"] else ())
+        arr = np.array([ir.randrange(256) for _ in range(int(np.prod(shape)))], dtype="uint8").reshape(shape)
+        if op["new"]:
+            parent_uid = self.resolve(h, op["t"], lambda r: not r.get("concat_group"))
+            if parent_uid is None:
+                return "skipped"
+            parent = self.ent(h, parent_uid)
+            kw = {"name": op["name"], "parent": parent}
+            if op["with_image"]:
+                kw["image"] = arr
+            ent, outcome = self.call(lambda: GeoImage.create(ws, **kw), what="mk GeoImage")
+            del parent
+            if outcome != "ok" or ent is None:
+                return outcome if outcome != "ok" else "raised:None"
+            recs = snapshot.subtree(ws, ent)
+            root = ustr(ent.uid)
+            self.expect_fields(recs[root], {"name": op["name"], "parent": parent_uid, "kind": "object"}, "create")
+            order = sorted(recs, key=lambda u: (0 if u == root else 1, u))
+            for i, u in enumerate(order):
+                model.add(recs[u], op["id"], i)
+            self.note_created(op, h, order)
+            self.keep_or_drop(op, h, ent)
+            self.sim.probe("geo_image_created")
+            return "ok"
+        uid = self.resolve(h, op["t"], lambda r: r["cls"] == "GeoImage")
+        if uid is None:
+            return "skipped"
+        old = [c for c in model.recs[uid]["children"] if model.recs[c]["name"] == "GeoImageMesh_Image"]
+        if any(not model.recs[c]["flags"]["allow_delete"] for c in old):
+            return "skipped"
+        self.touch(h, uid)
+        ent = self.ent(h, uid)
+        _, outcome = self.call(lambda: setattr(ent, "image", arr), what="image =")
+        if outcome != "ok":
+            del ent
+            return outcome
+        for c in old:
+            self._model_remove(h, c, "ws")
+        recs = snapshot.subtree(ws, ent)
+        new = sorted(u for u in recs if u not in model.recs)
+        for i, u in enumerate(new):
+            model.add(recs[u], op["id"], i)
+        self.note_created(op, h, new)
+        # the image decides the object's own geometry the first time (corner vertices); everything else stays
+        kept = model.recs[uid]
+        for field in ("arrays", "attrs"):
+            kept[field] = recs[uid][field]
+        self.keep_or_drop(op, h, ent)
+        del ent
+        self.sim.probe("geo_image_replaced" if old else "geo_image_set")
         return "ok"
 
     @staticmethod
